@@ -299,6 +299,16 @@ Proof.
     intros k. unfold nput, embed_state, minit. cbn [fst snd]. destruct k as [|[|k]]; reflexivity.
 Qed.
 
+(* the machine the extracted driver executes over the k object slots of the harness is nstep, for
+   callers that supply vectors of the documented length *)
+Theorem kstep_is_nstep s m :
+  (forall i o, m = NOn V i o -> short_vector V (s i) o = false) ->
+  kstep V vzero vdef conv fixed true s m = nstep s m.
+Proof.
+  intros H. destruct m as [i o|a b nt|i]; try reflexivity.
+  unfold kstep, TwoObjModel.nstep, step_chk. rewrite (H i o eq_refl). reflexivity.
+Qed.
+
 (* ---------------------------------------------------------------- non-vacuity *)
 (* three objects: fill a 2 x 2 S object 0 with per-frequency impedances, convert it into object 2
    (Z), convert object 2 in place to Zin, free object 0, copy object 2 into object 1, write a cell
